@@ -1,6 +1,9 @@
 package main
 
 import (
+	"sort"
+	"golang.org/x/tools/go/cfg"
+	"go/constant"
 	"fmt"
 	"go/ast"
 	"go/token"
@@ -228,42 +231,50 @@ func ruleStorePolarity(r *Report, rule string) {
 	sinfo := sa.Pkg.TypesInfo
 	okSlice := false
 	stable := ""
-	ast.Inspect(sa.Decl.Body, func(x ast.Node) bool {
-		is, ok := x.(*ast.IfStmt)
-		if !ok {
-			return true
-		}
-		hasBreak := false
-		for _, st := range is.Body.List {
-			if b, ok := st.(*ast.BranchStmt); ok && b.Tok == token.BREAK {
-				hasBreak = true
+	{
+		// the scan index moves down (i--) exactly while compare(doc, slice[i-1]) < 0: read off the branch
+		// facts at the decrement, whatever the loop's spelling (`if cmp >= 0 { break }` + post statement,
+		// or the test in the loop condition)
+		sg := buildCFG(sinfo, sa.Decl.Body)
+		ast.Inspect(sa.Decl.Body, func(x ast.Node) bool {
+			inc, ok := x.(*ast.IncDecStmt)
+			if !ok || inc.Tok != token.DEC {
+				return true
 			}
-		}
-		if !hasBreak {
-			return true
-		}
-		be, ok := ast.Unparen(is.Cond).(*ast.BinaryExpr)
-		if !ok {
-			return true
-		}
-		v := objOf(sinfo, be.X)
-		if v == nil {
-			return true
-		}
-		okSlice = true
-		for _, val := range []int{-1, 0, 1} {
-			b, ok := evalSignExpr(sinfo, is.Cond, v, val)
-			if !ok {
-				okSlice = false
-				continue
+			iv := objOf(sinfo, inc.X)
+			if iv == nil {
+				return true
 			}
-			stable += fmt.Sprintf("cmp=%d->stop=%v ", val, b)
-			if b != (val >= 0) {
-				okSlice = false
+			ops := map[token.Token]bool{}
+			for _, fc := range sg.GuardsOf(inc) {
+				be, isB := ast.Unparen(fc.Expr).(*ast.BinaryExpr)
+				if !isB || fc.Tag != nil || !fc.Truth {
+					continue
+				}
+				tv, isC := sinfo.Types[be.Y]
+				if !isC || tv.Value == nil || constant.Sign(tv.Value) != 0 {
+					continue
+				}
+				c, isCall := ast.Unparen(resolveCopies(sinfo, sa.Decl.Body, be.X)).(*ast.CallExpr)
+				if !isCall || len(c.Args) != 2 {
+					continue
+				}
+				if sel, ok := ast.Unparen(c.Fun).(*ast.SelectorExpr); !ok || sel.Sel.Name != "compare" {
+					continue
+				}
+				ops[be.Op] = true
 			}
-		}
-		return true
-	})
+			var seen []string
+			for op := range ops {
+				seen = append(seen, op.String())
+			}
+			sort.Strings(seen)
+			stable = "index decremented while compare(...) " + strings.Join(seen, ",") + " 0"
+			// `< 0` (and its consequence `<= 0`... is NOT implied); exactly the strict form, possibly with the weaker != 0
+			okSlice = ops[token.LSS] && !ops[token.LEQ] && !ops[token.GTR] && !ops[token.GEQ] && !ops[token.EQL]
+			return true
+		})
+	}
 	// compare(doc, slice[i-1]) argument order
 	argOrder := false
 	for _, c := range callsDeep(sa.Decl.Body) {
@@ -289,56 +300,103 @@ func ruleCollectorHandlerBounds(r *Report, rule string) {
 		}
 	}
 	r.Ob(rule, h.Name+"/store-bounded-by-size+skip", h.Decl.Pos(), okSize, "the bounded store keeps size+skip hits (the requested page plus everything before it)")
-	// sentinel comparisons
+	// sentinel comparisons: a branch on `hc.cmp(d, <sentinel>) <op> 0` one side of which can still
+	// reach the store call while the other cannot (the hit is dropped there).  The operator under
+	// which the hit is dropped is read off the edge, whatever the spelling (negation, && with a nil
+	// test, early return or else-branch).
 	var afterOK, lowestOK bool
-	ast.Inspect(h.Decl.Body, func(x ast.Node) bool {
-		is, ok := x.(*ast.IfStmt)
-		if !ok {
-			return true
+	var storeCall *ast.CallExpr
+	for _, c := range callsDeep(h.Decl.Body) {
+		if f := callee(info, c); f != nil && f.Name() == "AddNotExceedingSize" {
+			storeCall = c
 		}
-		be, ok := ast.Unparen(is.Cond).(*ast.BinaryExpr)
-		if !ok || exprStr(be.Y) != "0" {
-			return true
+	}
+	if storeCall != nil {
+		body := innermostFuncBody(h.Decl, storeCall)
+		g := buildCFG(info, body)
+		storeLoc, _ := g.Locate(storeCall)
+		reachesStore := func(from *cfg.Block) bool {
+			seen := map[int32]bool{}
+			st := []*cfg.Block{from}
+			for len(st) > 0 {
+				b := st[len(st)-1]
+				st = st[:len(st)-1]
+				if b == storeLoc.B {
+					return true
+				}
+				if seen[b.Index] {
+					continue
+				}
+				seen[b.Index] = true
+				st = append(st, b.Succs...)
+			}
+			return false
 		}
-		c, ok := ast.Unparen(be.X).(*ast.CallExpr)
-		if !ok {
-			// `c := hc.cmp(a, b)` ... `if c <= 0`
-			if id, isID := ast.Unparen(be.X).(*ast.Ident); isID {
+		resolveCall := func(e ast.Expr) *ast.CallExpr {
+			e = ast.Unparen(e)
+			if c, ok := e.(*ast.CallExpr); ok {
+				return c
+			}
+			if id, ok := e.(*ast.Ident); ok {
 				vo := info.ObjectOf(id)
-				ast.Inspect(h.Decl.Body, func(y ast.Node) bool {
+				var found *ast.CallExpr
+				n := 0
+				ast.Inspect(body, func(y ast.Node) bool {
 					if as, isAs := y.(*ast.AssignStmt); isAs && len(as.Lhs) == 1 && len(as.Rhs) == 1 && objOf(info, as.Lhs[0]) == vo {
-						if cc, isCall := as.Rhs[0].(*ast.CallExpr); isCall {
-							c, ok = cc, true
+						n++
+						if cc, isCall := ast.Unparen(as.Rhs[0]).(*ast.CallExpr); isCall {
+							found = cc
 						}
 					}
 					return true
 				})
+				if n == 1 {
+					return found
+				}
+			}
+			return nil
+		}
+		afterOps, lowestOps := map[token.Token]bool{}, map[token.Token]bool{}
+		for _, b := range g.G.Blocks {
+			cond, tag, ok := branchCond(b)
+			if !ok || tag != nil || len(b.Succs) != 2 || b.Succs[0] == b.Succs[1] {
+				continue
+			}
+			keep0, keep1 := reachesStore(b.Succs[0]), reachesStore(b.Succs[1])
+			if keep0 == keep1 {
+				continue // not a keep/drop decision (or already behind the store)
+			}
+			dropTruth := !keep0 == true // the edge on which the hit is dropped: true-edge iff the true edge cannot reach the store
+			var atoms []Fact
+			splitCond(cond, dropTruth, &atoms)
+			for _, a := range factVariants(atoms) {
+				be, isB := ast.Unparen(a.Expr).(*ast.BinaryExpr)
+				if !isB || !a.Truth {
+					continue
+				}
+				tv, isC := info.Types[be.Y]
+				if !isC || tv.Value == nil || constant.Sign(tv.Value) != 0 {
+					continue
+				}
+				c := resolveCall(be.X)
+				if c == nil || len(c.Args) != 2 {
+					continue
+				}
+				sel, isSel := ast.Unparen(c.Fun).(*ast.SelectorExpr)
+				if !isSel || !isField(info, sel, "TopNCollector", "cmp") {
+					continue
+				}
+				if isField(info, c.Args[1], "TopNCollector", "searchAfter") {
+					afterOps[be.Op] = true
+				}
+				if isField(info, c.Args[1], "TopNCollector", "lowestMatchOutsideResults") {
+					lowestOps[be.Op] = true
+				}
 			}
 		}
-		if !ok || len(c.Args) != 2 {
-			return true
-		}
-		sel, ok := ast.Unparen(c.Fun).(*ast.SelectorExpr)
-		if !ok || sel.Sel.Name != "cmp" {
-			return true
-		}
-		drops := false
-		for _, st := range is.Body.List {
-			if rs, ok := st.(*ast.ReturnStmt); ok && len(rs.Results) == 1 && isNilIdent(info, rs.Results[0]) {
-				drops = true
-			}
-		}
-		if !drops {
-			return true
-		}
-		if isField(info, c.Args[1], "TopNCollector", "searchAfter") {
-			afterOK = be.Op == token.LEQ
-		}
-		if isField(info, c.Args[1], "TopNCollector", "lowestMatchOutsideResults") {
-			lowestOK = be.Op == token.GEQ
-		}
-		return true
-	})
+		afterOK = len(afterOps) == 1 && afterOps[token.LEQ]
+		lowestOK = len(lowestOps) == 1 && lowestOps[token.GEQ]
+	}
 	r.Ob(rule, h.Name+"/search-after-drops-<=0", h.Decl.Pos(), afterOK, "hits that compare <= 0 with the search-after sentinel are dropped (the boundary hit itself is excluded, everything after it kept)")
 	r.Ob(rule, h.Name+"/evicted-bound-drops->=0", h.Decl.Pos(), lowestOK, "the shortcut only drops hits that compare >= 0 with the best already-evicted hit (they could never enter the page)")
 	// Final(skip)
